@@ -166,6 +166,8 @@ impl Freelist {
             page_ids.append(&mut pages);
         }
         page_ids.sort_unstable();
+        // a page can be freed more than once in a transaction (a nested bucket is deleted, then its parent): list it once
+        page_ids.dedup();
         page_ids
     }
 
